@@ -13,7 +13,7 @@ from analysis.mir import leaves, calls_in, show, walk, short, term_is
 from rules import storage_shared as ss
 
 EXPLANATION = __doc__
-FLOOR = 14
+FLOOR = 17
 TN = 'akd::tree_node::'
 
 
@@ -23,6 +23,7 @@ def run(ctx):
     selection_predicate(ctx, 'C11')
     previous_kept(ctx, 'C11')
     is_new_flags(ctx, 'C11')
+    readers_filter_states(ctx, 'C11')
     writes_inside_commit(ctx, 'C11')
     ss.transaction_lifecycle(ctx, 'C11')
     bounded_reads(ctx, 'C11')
@@ -224,6 +225,18 @@ def previous_kept(ctx, pfx):
         detail = 'record = {label: self.label, latest: self, previous: stored node as of last_epoch - 1 (None if new / not found)}' if ok else \
             'record literal is not {self.label, self, node as of self.last_epoch - 1}: %s' % show(e)[:260]
     ctx.ob(pfx + '.BIND.previous_kept', 'RF-BIND', ok, b.path, '%s:%s' % (b.file, b.line), detail, key='RF-BIND|previous_kept')
+    # the stored node is looked up unless the caller said the node is new — and for no other reason: a further
+    # disjunct ("nothing precedes epoch 0") drops the previous version of an existing node (seeded change C11-r2-a)
+    look = [ev['pos'][0] for ev, c in find_events(b, 'get_appropriate_tree_node_from_storage')]
+    dn = [d for d in decisions(b, lambda fc: fc[0] == 'bool' and access_path(fc[1]) == 'is_new' and fc[2] is True) if d['true'] is not None]
+    ok2 = False
+    if recs and look and dn:
+        reach = b.reach_avoiding([0], avoid_blocks=look, avoid_edges=[(dn[0]['block'], dn[0]['true'])])
+        ok2 = all(pos[0] not in reach for pos, e in recs)
+    ctx.ob(pfx + '.BIND.previous_skipped_only_if_new', 'RF-ORDER', ok2, b.path, '%s:%s' % (b.file, dn[0]['line'] if dn else b.line),
+           'the lookup of the stored node is skipped only on the `is_new` edge' if ok2 else
+           'the record can be built without looking up the stored node although is_new is false (previous version dropped)',
+           key='RF-ORDER|previous_skipped_only_if_new')
     is_new = decisions(b, lambda fc: fc[0] == 'bool' and access_path(fc[1]) == 'is_new')
     ctx.ob(pfx + '.BIND.previous_none_only_if_new', 'RF-GUARD', bool(is_new), b.path, '%s:%s' % (b.file, b.line),
            'previous = None without a lookup only under is_new' if is_new else 'no decision on is_new guards the lookup of the previous version')
@@ -322,3 +335,35 @@ def writes_inside_commit(ctx, pfx):
            'all %d storage writes of publish lie between begin_transaction and commit_transaction' % len(writes) if ok else
            'publish writes storage outside its committed transaction: %s' % (bad or 'no commit / writes found'),
            key='RF-ORDER|writes_inside_commit')
+
+
+def readers_filter_states(ctx, pfx):
+    """values of the unfinished epoch are invisible: key_history drops value states newer than its snapshot epoch
+    *before* any selection by count, and lookups ask for the state at-or-before the snapshot epoch
+    (seeded change C11-r2-b moved the filter behind the MostRecent cut)"""
+    from rules import dir_shared as ds
+    prog = ctx.prog
+    b = prog.fn_and_inner(ds.D + 'key_history')
+
+    def sites(name):
+        return [(pos, t) for pos, t in b.call_sites() if (short(t.get('res') or t.get('fn')) or '').endswith(name)]
+    ret = sites('Vec::retain')
+    okf = False
+    for pos, t in ret:
+        clo = b.expr_op(t['args'][1], pos) if len(t['args']) > 1 else ('unk',)
+        cb = prog.bodies.get(clo[1]) if clo[0] == 'closure' else None
+        if cb is not None:
+            r = result_expr(cb)
+            okf = okf or (r[0] == 'bin' and r[1] == 'Le' and split_fields(r[2])[1].endswith('epoch') and access_path(r[3]) == 'current_epoch')
+    lim = sites('Iterator::take') + sites('Vec::truncate')
+    oko = okf and bool(lim) and all(any(b.blk_dominates(p[0], l[0]) and (p[0] != l[0] or p[1] < l[1]) for p, _ in ret) for l, _ in lim)
+    ctx.ob(pfx + '.FILTER.history', 'RF-ORDER', oko, b.path, '%s:%s' % (b.file, ret[0][1].get('l') if ret else b.line),
+           'key_history drops states with epoch > snapshot epoch before the MostRecent cut' if oko else
+           'key_history does not drop the states of an unfinished epoch before selecting by count (filter present=%s)' % okf,
+           key='RF-ORDER|C11.filter.history')
+    gl = prog.fn_and_inner(ds.D + 'get_lookup_info')
+    q = [c for ev, c in find_events(gl, 'StorageManager::get_user_state')]
+    okl = bool(q) and all(arg(c, 2)[0] == 'agg' and arg(c, 2)[2] == 'LeqEpoch' and access_path(dict(arg(c, 2)[3]).get('0', ('unk',))) == 'epoch' for c in q)
+    ctx.ob(pfx + '.FILTER.lookup', 'RF-BIND', okl, gl.path, '%s:%s' % (gl.file, gl.line),
+           'lookups read the value state with LeqEpoch(snapshot epoch)' if okl else
+           'lookup info is not read with LeqEpoch(epoch): %s' % [show(arg(c, 2))[:60] for c in q], key='RF-BIND|C11.filter.lookup')
